@@ -329,6 +329,110 @@ def propagate_constant_locals(fnode):
     return True
 
 
+def propagate_constants_straightline(fnode):
+    """x = "const"  ...  uses of x  ...  x = "other"  ...   in one statement list: the reads between two bindings see the constant of the
+    first (a local re-bound several times, as left behind by unrolling a loop whose body names its own constant).  A compound statement
+    that re-binds x anywhere inside ends the knowledge without being rewritten; closures are not touched."""
+    if any(isinstance(n, (ast.Global, ast.Nonlocal)) for n in ast.walk(fnode)):
+        return False
+    changed = False
+
+    def stores(node):
+        out = set()
+        for x in ast.walk(node):
+            if isinstance(x, ast.Name) and isinstance(x.ctx, (ast.Store, ast.Del)):
+                out.add(x.id)
+            elif isinstance(x, (ast.FunctionDef, ast.ClassDef)) and x is not node:
+                out.add(x.name)
+        return out
+
+    class S(ast.NodeTransformer):
+        def __init__(self, known):
+            self.known = known
+            self.hit = False
+
+        def visit_FunctionDef(self, n):
+            return n
+
+        def visit_Lambda(self, n):
+            return n
+
+        def visit_Name(self, n):
+            if isinstance(n.ctx, ast.Load) and n.id in self.known:
+                self.hit = True
+                return ast.copy_location(ast.Constant(value=self.known[n.id]), n)
+            return n
+
+    def block(stmts, known):
+        nonlocal changed
+        known = dict(known)
+        for i, st in enumerate(stmts):
+            if isinstance(st, (ast.FunctionDef, ast.AsyncFunctionDef, ast.ClassDef)):
+                for k in stores(st):
+                    known.pop(k, None)
+                continue
+            stored = stores(st)
+            if isinstance(st, (ast.Assign, ast.AugAssign, ast.AnnAssign, ast.Expr, ast.Return, ast.Raise, ast.Assert, ast.Delete)):
+                if known and getattr(st, "value", None) is not None or isinstance(st, (ast.Raise, ast.Assert)):
+                    tr = S({k: v for k, v in known.items()})
+                    if isinstance(st, (ast.Assign, ast.AnnAssign, ast.Expr, ast.Return)) and st.value is not None:
+                        st.value = tr.visit(st.value)
+                    elif isinstance(st, ast.AugAssign):
+                        st.value = tr.visit(st.value)
+                    elif isinstance(st, ast.Raise) and st.exc is not None:
+                        st.exc = tr.visit(st.exc)
+                    if isinstance(st, ast.Assign):
+                        # subscripts / attributes in targets read their parts
+                        for j, t in enumerate(st.targets):
+                            if not isinstance(t, ast.Name):
+                                st.targets[j] = tr.visit(t)
+                    changed = changed or tr.hit
+                for k in stored:
+                    known.pop(k, None)
+                if isinstance(st, ast.Assign) and len(st.targets) == 1 and isinstance(st.targets[0], ast.Name) and isinstance(st.value, ast.Constant) \
+                        and isinstance(st.value.value, (str, int, bool)) and not isinstance(st.value.value, float):
+                    known[st.targets[0].id] = st.value.value
+                continue
+            # compound statement
+            inner = {k: v for k, v in known.items() if k not in stored}
+            if isinstance(st, ast.If):
+                tr = S(inner)
+                st.test = tr.visit(st.test)
+                changed = changed or tr.hit
+                block(st.body, inner)
+                block(st.orelse, inner)
+            elif isinstance(st, (ast.For, ast.AsyncFor)):
+                tr = S(inner)
+                st.iter = tr.visit(st.iter)
+                changed = changed or tr.hit
+                block(st.body, inner)
+                block(st.orelse, inner)
+            elif isinstance(st, ast.While):
+                tr = S(inner)
+                st.test = tr.visit(st.test)
+                changed = changed or tr.hit
+                block(st.body, inner)
+                block(st.orelse, inner)
+            elif isinstance(st, (ast.With, ast.AsyncWith)):
+                for it in st.items:
+                    tr = S(inner)
+                    it.context_expr = tr.visit(it.context_expr)
+                    changed = changed or tr.hit
+                block(st.body, inner)
+            elif isinstance(st, ast.Try):
+                block(st.body, inner)
+                for h in st.handlers:
+                    block(h.body, {})
+                block(st.orelse, {})
+                block(st.finalbody, {})
+            for k in stored:
+                known.pop(k, None)
+    block(fnode.body, {})
+    if changed:
+        ast.fix_missing_locations(fnode)
+    return changed
+
+
 def propagate_callable_locals(fnode):
     """m = obj.method (bound once, obj a cheap path or a call result read once) and every use is a call m(...)  ->  obj.method(...)"""
     counts = {}
@@ -1917,6 +2021,9 @@ def partial_evaluate(repo, max_rounds=8):
             if propagate_constant_locals(f.node):
                 ch = True
                 steps.append("constants")
+            if steps and propagate_constants_straightline(f.node):
+                ch = True
+                steps.append("constants-in-order")
             if steps and propagate_callable_locals(f.node):
                 ch = True
                 steps.append("callables")
